@@ -30,6 +30,7 @@
 #include <stdexcept>
 #include <variant>
 #include <cassert>
+#include <charconv>
 #include <cstring>
 
 using namespace UTAP;
@@ -1010,6 +1011,20 @@ std::ostream& expression_t::print_bound_type(std::ostream& os, expression_t e) c
 }
 
 /**
+ * A floating-point constant as the shortest text that is read back as the same value; a whole number keeps a fraction
+ * ("3.0"), since "3" would be read back as an integer.
+ */
+static std::ostream& print_double(std::ostream& os, double value)
+{
+    char buffer[32];
+    auto [end, ec] = std::to_chars(buffer, buffer + sizeof(buffer), value);
+    auto text = (ec == std::errc{}) ? std::string(buffer, end) : std::to_string(value);
+    if (text.find_first_of(".en") == std::string::npos)  // no fraction, exponent, inf or nan
+        text += ".0";
+    return os << text;
+}
+
+/**
  * The bound of a statistical query: `<=e`, `#<=e` or `l<=e`. The last form is read back as one expression that is split at
  * its top `<=`, so it is written as that expression: the operands get the parentheses `l <= e` needs.
  */
@@ -1131,7 +1146,7 @@ std::ostream& expression_t::print(std::ostream& os, bool old) const
         if (get(0).get_value() >= 0)
             get(0).print(os << "; ", old);
         os << (flag ? "]([] " : "](<> ");
-        get(3).print(os, old) << ") >= " << get(4).get_double_value();
+        print_double(get(3).print(os, old) << ") >= ", get(4).get_double_value());
         break;
 
     case PROBA_BOX: flag = true; [[fallthrough]];
@@ -1280,7 +1295,7 @@ std::ostream& expression_t::print(std::ostream& os, bool old) const
     case CONSTANT:
 
         if (get_type().is(Constants::DOUBLE)) {
-            os << get_double_value();
+            print_double(os, get_double_value());
         } else if (get_type().is_string()) {
             os << std::quoted(get_string_value());  // as the parser reads it: in quotes, with \" and \\ escaped
         } else if (get_type().is_integer()) {
